@@ -335,7 +335,7 @@ func hardErrorCases() []ExecCase {
 	hard := []string{`$missing`, `"12:00:00".time_tz()`, `"2015-08-01".timestamp_tz()`, `"2015-08-01 12:00:00+01".timestamp()`, `"2015-08-01".datetime("YYYY")`, `(1).decimal(0)`, `(1).decimal(1,2000)`, `(1).decimal(1001)`, `(1).decimal(1,-1001)`, `("12:00:00".time() < "12:00:00+01".time_tz())`}
 	supp := []string{`$h`, `$h.double()`, `$h.number()`, `$h.integer()`, `($h + 1)`, `(-$h)`, `$h.abs()`, `$h.decimal(5,2)`, `$h.bigint()`, `"a".double()`, `(1/0)`, `$.nokey`, `"x".integer()`, `$[9]`, `(-"a")`, `"zz".date()`, `(1).decimal(2147483648)`, `"a".keyvalue()`, `$.size()`}
 	var out []ExecCase
-	shapes := []string{"%s", "$[*] ? (@ == %s)", "$[*] ? (%s == @)", "exists(%s)", "(%s == 1) is unknown", "!(%s == 1)", "%s == 1 || 1 == 1", "1 == 1 || %s == 1", "1 == 2 && %s == 1", "%s == 1 && 1 == 2", "$[0 to %s]", "$[%s]", "-%s", "%s + 1", "$ ? (exists(@ ? (@ == %s)))", "$[*] ? (@ == 1 || @ == %s)", "$[*].a ? (@ > %s)", "$.**{1} ? (@ == %s)"}
+	shapes := []string{"%s", "$[*] ? (@ == %s)", "$[*] ? (%s == @)", "exists(%s)", "(%s == 1) is unknown", "!(%s == 1)", "%s == 1 || 1 == 1", "1 == 1 || %s == 1", "1 == 2 && %s == 1", "%s == 1 && 1 == 2", "$[0 to %s]", "$[%s]", "$[9 to %s]", "$[-1 to %s]", "$[0, 9 to %s]", "$[last + 1 to %s]", "-%s", "%s + 1", "$ ? (exists(@ ? (@ == %s)))", "$[*] ? (@ == 1 || @ == %s)", "$[*].a ? (@ > %s)", "$.**{1} ? (@ == %s)"}
 	docs := []string{`[1,2]`, `[]`, `{"a":[1]}`, `[{"a":1},2]`, `1`}
 	for _, sh := range shapes {
 		for _, e := range append(append([]string{}, hard...), supp...) {
